@@ -31,6 +31,7 @@ var c05TokPools = map[string][]string{
 
 var c05ExprPool = []string{"1+2", "a+b", "a<=b", "a<>b", "1<<2", "a>=b", "a>>1", "a!=b", "A+a", "f(1,2)", "Max(a,b)", "(", ")", "1 2", "a b NULL", "a IS NULL", "a NOT IN b", "a[1]", "'x'+'y'", "-a", "NOT a", "1/0", "", "  ",
 	"/*c*/", "a AND", "@", "x IS NOT NULL", "b", "a+", "1e2+1.5", "\"a b\"+1", "\U0001F600", "TRUE AND FALSE", "1 IN Array(1,2)", "a LIKE b", "2^3", "If(a,b,c)", "c*(a+b)", "a<=b AND b<>c OR a<<1>=2", "Min(a,b,c)+zz",
+	"v1+v2+v3+v4+v5+v6+v7+v8+v9", "w1+w2+w3+w4+w5+w6+w7+w8+v1", "v9-v8-v7-v6-v5-v4-v3-v2-v1-w1", "Sum(v1,v2,v3,v4,v5,v6,v7,v8,v9,v10,v11,v12,v13,v14,v15,v16,v17)*w1",
 	"'1'+(1+2)", "1+'1'", "'7'", "7+1", "'2.5'+2.5", "2.5+'2.5'", "'TRUE'+1", "\"1\"+1", "1", "'1'"}
 
 var c05TmplPool = []string{"x", "{{a}}", "{{{a}}}", "{{#a}}x{{/a}}", "{{^a}}y{{/a}}", "{{#if a}}x{{/if}}", "{{#unless a}}x{{/unless}}", "{{#a}}x", "{{/a}}", "{{a", "{{a}}}", "{{{a}}", "{{!c}}", "Hello {{NAME}}!",
@@ -207,6 +208,33 @@ func c05Objects() []c05Object {
 				out += safeObs(func() string {
 					v, e := t.EvaluateWithVariables(shared)
 					return fmt.Sprintf(" after-clear=%q/%s values a=%q b=%q name=%q", v, errStr(e), shared["a"], shared["b"], shared["name"])
+				})
+				return out
+			})
+		}
+	}})
+	// a calculator that is cleared after every input; its automatic variables get values derived from their names
+	objs = append(objs, c05Object{name: "ExpressionCalculator+Clear", pool: c05ExprPool, make: func() func(string) string {
+		calc := calculator.NewExpressionCalculator()
+		c05LastInst = []interface{}{calc}
+		return func(in string) string {
+			return safeObs(func() string {
+				err := calc.SetExpression(in)
+				out := "set=" + errStr(err) + " result=[" + exprTokensStr(calc.ResultTokens()) + "]"
+				if err == nil {
+					for _, v := range calc.DefaultVariables().GetAll() {
+						h := 0
+						for _, ch := range strings.ToUpper(v.Name()) {
+							h = h*31 + int(ch)
+						}
+						v.SetValue(variants.VariantFromInteger(h % 1000))
+					}
+					out += safeObs(func() string { v, e := calc.Evaluate(); return " eval=" + variantStr(v) + "/" + errStr(e) })
+					out += fmt.Sprintf(" defaults=%q", c18Names(calc.DefaultVariables()))
+				}
+				calc.Clear()
+				out += safeObs(func() string {
+					return fmt.Sprintf(" after-clear: defaults=%d result=%d", calc.DefaultVariables().Length(), len(calc.ResultTokens()))
 				})
 				return out
 			})
@@ -758,7 +786,7 @@ func init() {
 		// the first fresh-instance observation per input is the pristine reference: the hostile neighbour
 		// (decoy.go) only starts after the first cases of a shard have pinned them
 		LateNeighbour: true,
-		Rule: "explicit operation histories on ONE real instance of each of 13 object kinds (4 tokenizers x {no options, parser options}, ExpressionParser, ExpressionCalculator, MustacheParser, MustacheTemplate, MustacheTemplate cleared after every input and rendering with one caller-owned map): every ordered pair (thorough: triple) of inputs from a pool with every registered multi-character symbol alone and next to its siblings, every token class, unterminated literals, malformed programs; " +
+		Rule: "explicit operation histories on ONE real instance of each of 14 object kinds (an ExpressionCalculator cleared after every input with valued automatic variables, 4 tokenizers x {no options, parser options}, ExpressionParser, ExpressionCalculator, MustacheParser, MustacheTemplate, MustacheTemplate cleared after every input and rendering with one caller-owned map): every ordered pair (thorough: triple) of inputs from a pool with every registered multi-character symbol alone and next to its siblings, every token class, unterminated literals, malformed programs; " +
 			"after each step the full observation (tokens with positions / compiled program, variable names, error, values under two variable sets / rendering) must equal a freshly constructed instance's; plus every aborted iteration (SetReader, k fetches, abandon) followed by every input, and every pattern in {0,1,2}^m of HasNextToken queries before each fetch; the alternate entry points (ParseTokens / SetOriginalTokens on the instance's own token list, the ...FromExpression / FromTokens / FromString constructors, Clear(), the ...ToStrings tokenizer calls) must give what the main entry point gives on a fresh instance; a new instance must be unaffected after every slice/map handed out by another instance's getters was overwritten and its collections and states were cleared (and, throughout, by whatever this process did before: the fresh-instance observation per input is pinned the first time it is made); one compiled expression under every history of <=3 (thorough 5) steps out of 5 evaluation calls (default variables, two collections, an empty one, explicit functions) and 5 variable replacements (remove+add, SetValue, Clear on a supplied collection and on the defaults), every value compared with a fresh calculator whose variables went through the replacements only; non-trivial = histories of >=2 steps",
 		Assume: []string{"an outcome that is identical on the fresh instance (including a panic) is not a history effect and is left to C03"},
 		Spaces: func(tier string) []fw.Space {
